@@ -9,6 +9,9 @@ Models (what the code DOES, after the repair of the class-1 defect, commit f844f
   of reader replies; `Import.run` / `runF` — the `while let Some(..)` loop of
   `BlocksTransactionsImporter` on blocks and block-range roots; `Import.rangesRun` —
   `BlockRangeImporter::run`; `Import.rollbackRoots` — `start >= start(range(anchor))`;
+* `Import.insertTx` / `cascade` / `applyOutT` / `runT` — the `cardano_tx` table: rows keyed by the
+  transaction hash alone and inserted with `insert or ignore`, deleted with their block (`on delete
+  cascade`); `Import.txsIn` — the join every read query and both range importers go through;
 * `Importer.importStep` — early exit, resume point, last polled point, panic of the foreign key,
   pruning (driver only); `Importer.signable` — what the signable builders read.
 
@@ -111,14 +114,85 @@ theorem C13_good_decidable (c : Cfg) (rs : List (Option Ev)) (lp : Option Nat) (
 
 /-- the loop the driver executes (with the store-call log and the panic outcome) is the proven loop
 whenever it does not panic -/
-theorem C13_driver_loop_is_proven_loop (ntx : Nat → Nat) (c : Cfg) (fuel : Nat) (lp : Option Nat) (S : List Block)
-    (roots legacy : List (Nat × ρ)) (rs : List (Option Ev)) (ops : List String)
-    (h : (runX ntx c fuel lp S roots legacy rs ops).panicked = false) :
-    (runX ntx c fuel lp S roots legacy rs ops).S = (runF c fuel lp S roots rs).1 ∧
-    (runX ntx c fuel lp S roots legacy rs ops).roots = (runF c fuel lp S roots rs).2.1 ∧
-    (runX ntx c fuel lp S roots legacy rs ops).legacy = (runF c fuel lp S legacy rs).2.1 :=
-  let r := runX_eq_runF ntx c fuel lp S roots legacy rs ops h
-  ⟨r.1, r.2.1, r.2.2.1⟩
+theorem C13_driver_loop_is_proven_loop (txsOf : Nat → List Nat) (c : Cfg) (fuel : Nat) (lp : Option Nat) (S : List Block)
+    (T : List TxRow) (roots legacy : List (Nat × ρ)) (rs : List (Option Ev)) (ops : List String)
+    (h : (runX txsOf c fuel lp S T roots legacy rs ops).panicked = false) :
+    (runX txsOf c fuel lp S T roots legacy rs ops).S = (runF c fuel lp S roots rs).1 ∧
+    (runX txsOf c fuel lp S T roots legacy rs ops).roots = (runF c fuel lp S roots rs).2.1 ∧
+    (runX txsOf c fuel lp S T roots legacy rs ops).legacy = (runF c fuel lp S legacy rs).2.1 ∧
+    (runX txsOf c fuel lp S T roots legacy rs ops).T = (runT txsOf c fuel lp S T rs).2.1 :=
+  let r := runX_eq_runF txsOf c fuel lp S T roots legacy rs ops h
+  ⟨r.1, r.2.1, r.2.2.1, r.2.2.2.2.2⟩
+
+/-! ## the transaction table (`cardano_tx`: primary key = transaction hash, `insert or ignore`, cascade) -/
+
+/-- **the cascade.** After a roll-back every remaining transaction row names a block that is still
+stored, and no row of a block the roll-back removed remains -/
+theorem C13_rollback_removes_transactions (txsOf : Nat → List Nat) (S : List Block) (T : List TxRow) (s : Nat) (hS : Sorted S) :
+    (∀ r ∈ applyOutT txsOf S T (some (.backward s)), ∃ b ∈ rollback S s, b.hash = r.2) ∧
+    (∀ b ∈ S, b ∉ rollback S s → ∀ r ∈ applyOutT txsOf S T (some (.backward s)), r.2 ≠ b.hash) :=
+  ⟨cascade_no_orphan (rollback S s) T, fun b hb hgone => rollback_removes_transactions S T s hS b hb hgone⟩
+
+/-- **a re-included transaction is stored under its new block.** After a roll-back, a batch that
+extends the remaining chain — and MAY carry transactions of the blocks the roll-back removed, in any
+block of the new fork — is stored row for row: each of its transactions is stored under the block that
+now carries it and under no other, and the join gives that block exactly its transactions -/
+theorem C13_reincluded_transaction_under_new_block (txsOf : Nat → List Nat) (S : List Block) (T : List TxRow) (s : Nat)
+    (bs : List Block) (hS : Sorted S) (hT : TInv txsOf S T)
+    (hs : Sorted (rollback S s ++ bs)) (hF : TxFresh txsOf (rollback S s ++ bs))
+    (b' : Block) (hb' : b' ∈ bs) (t : Nat) (ht : t ∈ txsOf b'.hash) :
+    (t, b'.hash) ∈ applyOutT txsOf (rollback S s) (applyOutT txsOf S T (some (.backward s))) (some (.forwards bs)) ∧
+    (∀ r ∈ applyOutT txsOf (rollback S s) (applyOutT txsOf S T (some (.backward s))) (some (.forwards bs)),
+      r.1 = t → r.2 = b'.hash) ∧
+    txsIn (applyOutT txsOf (rollback S s) (applyOutT txsOf S T (some (.backward s))) (some (.forwards bs))) b'.hash
+      = txsOf b'.hash :=
+  reincluded_under_new_block txsOf S T s bs hS hT hs hF b' hb' t ht
+
+/-- **Layer 1, transactions.** For every store that is a chain below the target whose table holds the
+rows of its blocks, and every GOOD reply script in which no chain the node presents carries a
+transaction twice (`GoodTx`: a transaction of a rolled-back block may come back in any later block):
+after the scan the table holds exactly the rows of the stored blocks — which are those of
+`C13_import_refines` — whatever the batches, buffer truncations, roll-backs and re-inclusions. With
+`C13_convergence` (same blocks) two nodes end with the same table. -/
+theorem C13_transactions_refine (txsOf : Nat → List Nat) (c : Cfg) (fuel : Nat) (S0 : List Block) (T0 : List TxRow)
+    (rs : List (Option Ev)) (hS : Sorted S0) (hU : ∀ x ∈ S0, x.number ≤ c.untilN) (hG : Good c none S0 rs)
+    (hGT : GoodTx txsOf S0 rs) (hT : TInv txsOf S0 T0) :
+    (runT txsOf c fuel none S0 T0 rs).1 = (run c fuel none S0 rs).1 ∧
+    (runT txsOf c fuel none S0 T0 rs).2.1 = rowsOf txsOf (runT txsOf c fuel none S0 T0 rs).1 := by
+  have hI : Inv c S0 [] S0 := by
+    refine ⟨hS, ?_, Or.inl rfl⟩
+    rw [List.append_nil]; symm; rw [List.filter_eq_self]; intro x hx; simpa using hU x hx
+  obtain ⟨h1, _, h3⟩ := runT_refines txsOf c fuel none S0 S0 T0 rs hI hG hGT hT
+  exact ⟨h1, h3⟩
+
+/-- the join `cardano_block ⋈ cardano_tx` gives every stored block the transactions it was delivered
+with, so the range importers — which read the join — compute the roots the theorems above are about -/
+theorem C13_roots_read_through_join (txsOf : Nat → List Nat) (R : (Nat → List Nat) → List Block → Option ρ)
+    (hR : LocalRoot R) (S : List Block) (hS : Sorted S) (roots : List (Nat × ρ)) (upTo : Nat) :
+    (∀ b ∈ S, txsIn (rowsOf txsOf S) b.hash = txsOf b.hash) ∧
+    rangesRun (R (txsIn (rowsOf txsOf S))) S roots upTo = rangesRun (R txsOf) S roots upTo :=
+  ⟨fun b hb => txsIn_rowsOf txsOf S hS b hb, rangesRun_join txsOf R hR S hS roots upTo⟩
+
+/-- `GoodTx` is decidable: the driver evaluates it on every recorded import (class letter `x`) -/
+theorem C13_goodTx_decidable (txsOf : Nat → List Nat) (rs : List (Option Ev)) (V : List Block) :
+    goodTxB txsOf V rs = true ↔ GoodTx txsOf V rs :=
+  goodTxB_iff txsOf rs V
+
+/-- the cascade is necessary: block 2 carries transaction 7, the node rolls back to block 1 and the new
+block 2' carries transaction 7 again. With the cascade the join gives 2' the transaction; a table that
+keeps the row of the removed block (foreign keys not enforced) ignores the new row on the primary key
+and the transaction disappears from the join, hence from the roots and the signed message -/
+theorem C13_reinclusion_needs_cascade :
+    let txsOf : Nat → List Nat := fun h => if h = 102 ∨ h = 202 then [7] else []
+    let S : List Block := [⟨101, 1, 10⟩, ⟨102, 2, 20⟩]
+    let T := rowsOf txsOf S
+    let S' := rollback S 10
+    let bs : List Block := [⟨202, 2, 21⟩]
+    let S'' := insertAll S' bs
+    txsIn (applyOutT txsOf S' (applyOutT txsOf S T (some (.backward 10))) (some (.forwards bs))) 202 = [7] ∧
+    txsIn (applyOutTNoCascade txsOf (applyOutTNoCascade txsOf T (some (.backward 10))) (some (.forwards bs))) 202 = [] ∧
+    S'' = [⟨101, 1, 10⟩, ⟨202, 2, 21⟩] :=
+  reinclusion_needs_cascade
 
 /-! ## the excluded classes are real (counter-examples) -/
 
@@ -199,6 +273,21 @@ example : Good ⟨0, 100, 100⟩ none [] [some (.back 0), some (.fwd B1), some (
       = [B1, ⟨103, 3, 31⟩] := by
   constructor
   · rw [← goodB_iff]; decide
+  · decide
+
+/-- non-vacuity of the transaction theorem: a store holding block 2 with transaction 7; the node rolls
+back to block 1 and delivers 2' and 3' where 3' carries transaction 7 again — the script is `Good` and
+`GoodTx`, and transaction 7 ends under 3' -/
+example :
+    let txsOf : Nat → List Nat := fun h => if h = 102 ∨ h = 203 then [7] else []
+    let S0 : List Block := [⟨101, 1, 10⟩, ⟨102, 2, 20⟩]
+    let rs : List (Option Ev) := [some (.back 20), some (.back 10), some (.fwd ⟨202, 2, 21⟩), some (.fwd ⟨203, 3, 31⟩), none]
+    let c : Cfg := ⟨20, 100, 100⟩
+    Good c none S0 rs ∧ GoodTx txsOf S0 rs ∧
+    (runT txsOf c 10 none S0 (rowsOf txsOf S0) rs).2.1 = [(7, 203)] := by
+  refine ⟨?_, ?_, ?_⟩
+  · rw [← goodB_iff]; decide
+  · rw [← goodTxB_iff]; decide
   · decide
 
 end C13
